@@ -47,7 +47,7 @@ func Run(c *core.Ctx) {
 	}
 	r5(c, p)
 	c.Expect("R1.envelope", 25)
-	c.Expect("R2.offset", 9)
+	c.Expect("R2.offset", 8)
 	c.Expect("R3.one-db", 4)
 	c.Expect("R3.barrier", 2)
 	c.Expect("R3.automaton", 22)
@@ -103,7 +103,23 @@ func r1(c *core.Ctx, s *c03.Sender) *envelope {
 	}
 	ms, es, hs := cmdPts("multi"), cmdPts("exec"), cmdPts("hset")
 	if len(ms) != 1 || len(es) != 1 || len(hs) == 0 {
-		if len(ms) == 0 || len(es) == 0 || len(hs) == 0 {
+		elsewhere := false
+		for _, b := range c03.AllBodies(c) {
+			if b.Pkg.PkgPath != s.Fn.Pkg.PkgPath || b.Lit == s.Lit {
+				continue
+			}
+			core.Inspect(b.Root(), func(n ast.Node) bool {
+				if st, ok := n.(ast.Stmt); ok && (c03.ConnCmd(b.Pkg.TypesInfo, st, "multi") != nil || c03.ConnCmd(b.Pkg.TypesInfo, st, "exec") != nil) {
+					if _, isBlock := st.(*ast.BlockStmt); !isBlock {
+						elsewhere = true
+					}
+				}
+				return true
+			})
+		}
+		if elsewhere {
+			c.Undecidedf(rule, "shape", s.Lit.Pos(), "MULTI/EXEC are sent outside sendFunc; the rule only follows the closure")
+		} else if len(ms) == 0 || len(es) == 0 || len(hs) == 0 {
 			c.Failf(rule, "shape", s.Lit.Pos(), "sendFunc sends %d MULTI, %d EXEC and %d checkpoint HSETs: without the MULTI ... HSET offset ... EXEC envelope a cut connection leaves data applied without (or a checkpoint without) its counterpart", len(ms), len(es), len(hs))
 		} else {
 			c.Undecidedf(rule, "shape", s.Lit.Pos(), "sendFunc sends %d MULTI and %d EXEC: the rule knows one envelope per batch", len(ms), len(es))
@@ -337,8 +353,22 @@ func errorFatal(c *core.Ctx, s *c03.Sender) {
 			eq, ok := c03.EqFact(ft, c03.IsObj(info, ev), func(x ast.Expr) bool { return core.IsNil(info, x) })
 			return ok && eq
 		}
+		handed := func(n ast.Node) bool { // err passed to a function that is not a logger: may be a must()-style helper
+			for _, call := range cfgq.ExecCalls(n) {
+				f := core.CalleeFunc(info, call)
+				if f == nil || f.Pkg() == nil || f.Pkg().Name() == "log" || f.Pkg().Path() == "fmt" {
+					continue
+				}
+				for _, a := range call.Args {
+					if c03.IsObj(info, ev)(a) {
+						return true
+					}
+				}
+			}
+			return false
+		}
 		w := g.Path(cfgq.Query{From: pt, After: true, AvoidEdge: s.LFl.Edge(isNil), TargetExit: cfgq.NormalExit,
-			Avoid: func(n ast.Node) bool { return n != pt.Node() && assigns(info, n, ev) }})
+			Avoid: func(n ast.Node) bool { return n != pt.Node() && (assigns(info, n, ev) || handed(n)) }})
 		c.Check(rule, key, as.Pos(), w == nil && ev != nil,
 			"a Send/Flush error must end the sender (no-return log call): on this path sendFunc carries on after a failed write, clears the batch and advances lastCommittedOffset, so the commands are lost on restart", w...)
 	}
@@ -368,24 +398,32 @@ func hsetArgs(c *core.Ctx, s *c03.Sender, e *envelope) {
 			continue
 		}
 		var role, want string
-		var okVal bool
+		var okVal, unknownVal bool
 		switch {
 		case call == e.offCall:
 			role, want = "offset", "the batch's offset variable"
 			okVal = true // provenance under R2
 		case mentionsConst(c, info, scope, call.Args[2], "CheckpointRunId"):
 			role, want = "runid", "ds.runId"
-			okVal = core.IsFieldNamed(info, call.Args[3], c03.Syncer, "runId")
+			okVal = leafIs(info, scope, call.Args[3], func(x ast.Expr) bool { return core.IsFieldNamed(info, x, c03.Syncer, "runId") })
+			unknownVal = !okVal && !core.MentionsField(info, call.Args[3], c03.Syncer, "id")
 		case mentionsConst(c, info, scope, call.Args[2], "CheckpointVersion"):
 			role, want = "version", "utils.FcvCheckpoint.CurrentVersion"
-			okVal = core.IsFieldNamed(info, call.Args[3], "CheckpointFcv", "CurrentVersion") || pat.Expr("_u.FcvCheckpoint.CurrentVersion").Match(info, call.Args[3], nil) != nil
+			okVal = leafIs(info, scope, call.Args[3], func(x ast.Expr) bool { return pat.Expr("_u.FcvCheckpoint.CurrentVersion").Match(info, x, nil) != nil })
+			_, isConst := core.IntConst(info, call.Args[3])
+			unknownVal = !okVal && !isConst
 		default:
 			c.Undecidedf(rule, "hset-shape", call.Pos(), "HSET `%s` inside the envelope is not one of the three checkpoint fields", c.Src(call))
 			continue
 		}
-		c.Check(rule, "hset-key/"+role, call.Pos(), core.IsFieldNamed(info, call.Args[1], c03.Syncer, "checkpointName"),
-			"the checkpoint HSET must write the hash ds.checkpointName (the key LoadCheckpoint reads): another key is never found on resume")
-		if okVal {
+		if leafIs(info, scope, call.Args[1], func(x ast.Expr) bool { return core.IsFieldNamed(info, x, c03.Syncer, "checkpointName") }) {
+			c.Okf(rule, "hset-key/"+role, call.Pos(), "the checkpoint HSET writes the hash ds.checkpointName (the key LoadCheckpoint reads)")
+		} else {
+			c.Undecidedf(rule, "hset-key/"+role, call.Pos(), "the checkpoint HSET writes key `%s`, not ds.checkpointName", c.Src(call.Args[1]))
+		}
+		if unknownVal {
+			c.Undecidedf(rule, "hset-value/"+role, call.Pos(), "cannot trace the %s value `%s` to %s", role, c.Src(call.Args[3]), want)
+		} else if okVal {
 			c.Okf(rule, "hset-value/"+role, call.Pos(), "value is %s", want)
 		} else {
 			c.Failf(rule, "hset-value/"+role, call.Pos(), "the %s field stores `%s` instead of %s: resume compares/uses a value the source never announced", role, c.Src(call.Args[3]), want)
@@ -402,6 +440,30 @@ func hsetArgs(c *core.Ctx, s *c03.Sender, e *envelope) {
 			c.Undecidedf(rule, "hset-field/"+role, call.Pos(), "field name `%s` is not built as fmt.Sprintf(\"%%s-%%s\", ds.node.Source, const)", c.Src(call.Args[2]))
 		}
 	}
+}
+
+func constIndex(info *types.Info, e ast.Expr) bool {
+	ix, ok := ast.Unparen(e).(*ast.IndexExpr)
+	if !ok {
+		return false
+	}
+	_, isC := core.IntConst(info, ix.Index)
+	return isC
+}
+
+// leafIs: every non-zero origin of e satisfies pred.
+func leafIs(info *types.Info, scope ast.Node, e ast.Expr, pred func(ast.Expr) bool) bool {
+	n := 0
+	for _, o := range c03.Origins(info, scope, e) {
+		if o.Zero {
+			continue
+		}
+		n++
+		if o.Expr == nil || o.Op != 0 || o.Range || o.Res > 0 || !pred(o.Expr) {
+			return false
+		}
+	}
+	return n > 0
 }
 
 // ---------------------------------------------------------------------------
@@ -440,7 +502,7 @@ func r2(c *core.Ctx, s *c03.Sender, p *c03.Parser, e *envelope) {
 				as := defs[0].Stmt
 				w := s.LG.Path(cfgq.Query{From: s.LG.Entry(), Avoid: func(n ast.Node) bool { return n == as }, AvoidEdge: e.nbFalse, Target: e.isOffHset})
 				c.Check(rule, "stored-assigned", e.offCall.Pos(), w == nil, "the offset variable must be assigned on every batched path before it is sent: otherwise 0 is stored and the restart replays the whole backlog (or fails)", w...)
-			case src != nil && core.Mentions(info, src, s.Tunnel):
+			case src != nil && core.Mentions(info, src, s.Tunnel) && constIndex(info, src):
 				c.Failf(rule, key, src.Pos(), "the checkpoint stores the offset of `%s`, not of the last command of the batch: after a restart the commands between that element and the end of the batch are applied a second time", c.Src(src))
 			default:
 				c.Undecidedf(rule, key, e.offCall.Pos(), "cannot show that `%s` is the last element of the batch", c.Src(sel.X))
@@ -579,8 +641,21 @@ func r5(c *core.Ctx, p *c03.Parser) {
 		return
 	}
 	runV, dbV := core.ObjOf(info, load.Lhs[0]), core.ObjOf(info, load.Lhs[2])
-	c.Check(rule, "Sync/offset-from-checkpoint", load.Pos(), c03.IsSourceOffset(info, load.Lhs[1]),
-		fmt.Sprintf("the checkpoint's offset (2nd result of LoadCheckpoint) must become ds.sourceOffset, found `%s`: PSYNC would not continue after the stored offset", c.Src(load.Lhs[1])))
+	offOK, offUnknown := c03.IsSourceOffset(info, load.Lhs[1]), false
+	if lid, ok := ast.Unparen(load.Lhs[1]).(*ast.Ident); ok && lid.Name != "_" {
+		for _, wr := range c03.FieldWrites(c, c03.Syncer, "sourceOffset") {
+			if wr.In.Lit == nil && wr.In.Decl == syncFn.Decl && wr.Rhs != nil && c03.IsObj(info, core.ObjOf(info, lid))(wr.Rhs) {
+				offOK = true
+			}
+		}
+		offUnknown = !offOK
+	}
+	if offUnknown {
+		c.Undecidedf(rule, "Sync/offset-from-checkpoint", load.Pos(), "cannot trace the checkpoint's offset `%s` to ds.sourceOffset", c.Src(load.Lhs[1]))
+	} else {
+		c.Check(rule, "Sync/offset-from-checkpoint", load.Pos(), offOK,
+			fmt.Sprintf("the checkpoint's offset (2nd result of LoadCheckpoint) must become ds.sourceOffset, found `%s`: PSYNC would not continue after the stored offset", c.Src(load.Lhs[1])))
+	}
 	lp, _ := g.Find(load)
 	// (b) the PSYNC call receives the loaded run id, nothing overwrites offset or run id in between
 	isPsyncCall := g.HasCall(func(call *ast.CallExpr, callee types.Object) bool { return callee == types.Object(psync.Obj) })
@@ -602,14 +677,25 @@ func r5(c *core.Ctx, p *c03.Parser) {
 			argIdx = i
 		}
 	}
-	c.Check(rule, "Sync/runid-to-psync", pcall.Pos(), argIdx >= 0, "the run id loaded from the checkpoint must be handed to sendPSyncCmd: with another run id the source answers FULLRESYNC and the stored offset is meaningless")
+	switch {
+	case argIdx >= 0:
+		c.Okf(rule, "Sync/runid-to-psync", pcall.Pos(), "the run id loaded from the checkpoint is handed to sendPSyncCmd")
+	default: // the run id may travel through another local
+		c.Undecidedf(rule, "Sync/runid-to-psync", pcall.Pos(), "the run id loaded from the checkpoint is not passed to sendPSyncCmd directly")
+	}
 	clobber := func(n ast.Node) bool {
 		if n == ast.Node(load) || isPsyncCall(n) {
 			return false
 		}
 		switch x := n.(type) {
 		case *ast.AssignStmt:
-			for _, l := range x.Lhs {
+			for i, l := range x.Lhs {
+				if c03.IsSourceOffset(info, l) && len(x.Lhs) == len(x.Rhs) {
+					// storing the loaded offset itself is the wiring, not a clobber
+					if lid, ok := ast.Unparen(load.Lhs[1]).(*ast.Ident); ok && c03.IsObj(info, core.ObjOf(info, lid))(x.Rhs[i]) {
+						continue
+					}
+				}
 				if c03.IsSourceOffset(info, l) || c03.IsObj(info, runV)(l) || c03.IsObj(info, dbV)(l) {
 					return true
 				}
@@ -634,7 +720,9 @@ func r5(c *core.Ctx, p *c03.Parser) {
 			c.Undecidedf(rule, "Sync/start-db/writer/"+wr.In.Name, wr.Stmt.Pos(), "ds.startDbId is written by `%s`", c.Src(wr.Stmt))
 		}
 	}
-	if startAs == nil {
+	if startAs == nil && len(ws) > 0 {
+		c.Undecidedf(rule, "Sync/start-db", load.Pos(), "ds.startDbId is written, but not by `ds.startDbId = <3rd result of LoadCheckpoint>` in Sync")
+	} else if startAs == nil {
 		c.Failf(rule, "Sync/start-db", load.Pos(), "the database of the loaded checkpoint (3rd result of LoadCheckpoint) never reaches ds.startDbId: after PSYNC CONTINUE the commands are applied in database 0 instead of the database the stream was in")
 	} else {
 		ok := true
